@@ -416,9 +416,10 @@ def _linear(repo, rep):
     # the transformer consults the cache first
     f = repo.func(COMP + "ExpressionTransform._translate")
     v = L.emission(repo, f.qualname).value
-    ok = isinstance(v, A.Alt) and v.test == "cached is not None" and \
+    hit = L.branch(v, "cached is not None", True)
+    ok = hit is not None and \
         not any(isinstance(w, A.CallV) and w.name == "visitor"
-                for w in A.walk(v.a))
+                for w in A.walk(hit))
     rep.check(ok, "R04.4", f.qualname, "a cached expression is assigned from "
               "its cache variable and not evaluated again",
               construct="cache-first", where=L.where(f),
